@@ -781,6 +781,12 @@ def fold_bin(op, l, r):
                     return const(a ** b)
         except TypeError:
             pass
+    # a numeric constant operand of + and * is written on the right (1 + i is i + 1, 2 * x is x * 2)
+    if op in ('+', '*') and l[0] == 'c' and isinstance(l[1], (int, float)) and not isinstance(l[1], bool) and r[0] != 'c':
+        return fold_bin(op, r, l)
+    # 0 - x is -x
+    if op == '-' and l == ('c', 0) and r[0] != 'c':
+        return ('un', '-', r)
     # shifts and masks by powers of two are products / quotients / remainders (exact for every Python and numpy integer)
     def _int(c):
         return c[0] == 'c' and isinstance(c[1], int) and not isinstance(c[1], bool)
@@ -1116,6 +1122,24 @@ def item(t, i):
 
 
 def subscript(base, idx):
+    # pair[1] for pair in enumerate(X) / zip(X, Y) is the unpacked component
+    if base[0] == 'iter' and idx[0] == 'c' and isinstance(idx[1], int) and not isinstance(idx[1], bool) and idx[1] >= 0 and \
+            base[1][0] == 'call' and base[1][1] in (('g', 'builtins.enumerate'), ('g', 'builtins.zip')):
+        r = item(base, idx[1])
+        if r[0] != 'item':
+            return r
+    # X[a:len(X)] is X[a:], X[0:b] is X[:b] (unit step)
+    if idx[0] == 'slice' and len(idx) == 4 and idx[3] in (('c', None), ('c', 1)):
+        lo, hi = idx[1], idx[2]
+        if hi == ('call', ('g', 'builtins.len'), (base,), ()):
+            hi = ('c', None)
+        if lo == ('c', 0):
+            lo = ('c', None)
+        idx = ('slice', lo, hi, ('c', None))
+    # X[len(X) - c] is X[-c] (c >= 1): both address the c-th item from the end, both raise IndexError when there is none
+    if idx[0] == 'bin' and idx[1] == '-' and idx[3][0] == 'c' and isinstance(idx[3][1], int) and idx[3][1] >= 1 and \
+            idx[2] == ('call', ('g', 'builtins.len'), (base,), ()):
+        idx = ('c', -idx[3][1])
     # a[i, j] with scalar (non-slice) i  ==  a[i][j]
     if idx[0] == 'tuple' and len(idx) == 3 and idx[1][0] != 'slice':
         return subscript(subscript(base, idx[1]), idx[2])
@@ -1135,6 +1159,9 @@ def subscript(base, idx):
 
 def simplify_call(t):
     _, fn, args, kws = t
+    # range(0, n) and range(0, n, 1) are range(n)
+    if fn == ('g', 'builtins.range') and not kws and len(args) in (2, 3) and args[0] == ('c', 0) and (len(args) == 2 or args[2] == ('c', 1)):
+        return simplify_call(('call', fn, (args[1],), kws))
     # numpy.full(shape, 0, dtype) is zeros(shape, dtype); full(shape, -1, dtype) is -ones(shape, dtype); full(shape, 1, ..) is ones
     if fn == ('g', 'numpy.full') and not any(a[0] == 'star' for a in args):
         kw = dict(kws)
